@@ -34,7 +34,7 @@ RULE = ("one run = one hypergraph (5-9 nodes incl. isolated, D 2-4, weighted or 
         "global PRNGs - and HySC.fit twice.  Non-trivial: >= 2 EM iterations recorded and >= 1 clock anomaly or adversarial permutation; distinct = result digests.")
 # documented frequency of the three listed known findings on the unchanged tree (12000-run soak): 0.07%, 0.14%, 0.6% of
 # all runs.  A surge far above that is reported as a separate violation (<sig>/rate-above-known-finding).
-KNOWN_RATE_BOUNDS = {"C17/mt/loglik-decreased": 0.02, "C17/mt/maxL-differs-from-definition": 0.02,
+KNOWN_RATE_BOUNDS = {"C17/mt/raised[AssertionError]": 0.005, "C17/mt/loglik-decreased": 0.02, "C17/mt/maxL-differs-from-definition": 0.02,
                      "C17/mt/row-not-normalised": 0.05}
 TIERS = {"quick": {"runs": 2000, "wall_cap": 240, "det_seeds": 6, "min_tests": 150},
          "thorough": {"runs": 25000, "wall_cap": 3000, "det_seeds": 24, "min_tests": 500}}
@@ -189,7 +189,7 @@ def execute(case):
         try:
             h, m, u, w, L, clock1, info1 = _fit_mt(case, 0, "monotone", False)
         except Exception as e:  # noqa
-            raise Violation("C17/mt/raised", {"exception": repr(e), **ctx})
+            raise Violation(f"C17/mt/raised[{type(e).__name__}]", {"exception": repr(e), **ctx})
         nodes = list(h.get_nodes())
         N = len(nodes)
         mapping = h.get_mapping()
@@ -248,7 +248,7 @@ def execute(case):
             if case.get("reuse_object"):
                 stats["same_object_fitted_twice"] = stats.get("same_object_fitted_twice", 0) + 1
         except Exception as e:  # noqa
-            raise Violation("C17/mt/raised-on-second-run", {"exception": repr(e), **ctx})
+            raise Violation(f"C17/mt/raised-on-second-run[{type(e).__name__}]", {"exception": repr(e), **ctx})
         t1 = t1_saved
         t2 = m2.train_info.drop(columns=["runtime"]).values.tolist()
         if not (np.array_equal(u, u2) and np.array_equal(w, w2) and L == L2) or t1 != t2:
